@@ -425,9 +425,14 @@ class BasicEmptyDataElementVisitor(BasicConstructVisitor):
 class BasicReadStatementPatcherVisitor(BasicConstructVisitor):
     def visit_data_statement(self, statement: BasicDataStatement):
         exp: AbstractBasicExpression
-        for exp in statement.exp_list.exp_list:
+        for idx, exp in enumerate(statement.exp_list.exp_list):
             if not isinstance(exp.literal, str):
-                exp.literal = str(exp.literal)
+                if isinstance(exp, BasicLiteral):
+                    exp.literal = str(exp.literal)
+                else:
+                    statement.exp_list.exp_list[idx] = BasicLiteral(
+                        str(exp.literal), is_str_expr=True
+                    )
 
     def visit_read_statement(self, statement: BasicReadStatement):
         """
